@@ -370,3 +370,4 @@ PROP = Prop("C11", [
 ], RULE, assumptions=[
     "NumPy's own indexing applied to arange(size) identifies the selected positions (the scatter model)",
 ])
+PROP.reach_functions = ['autograd.core:add_outgrads', 'autograd.numpy.numpy_vjps:untake', 'autograd.core:sparse_add']
